@@ -159,15 +159,17 @@ type world3 struct {
 }
 
 func (w *world3) receivers() []receiver {
-	p := newPair(w.a, w.b) // fresh keys => fresh windows on every call
+	// fresh keys => fresh windows on every call; message types of one class share a window, so every receiver
+	// gets a session pair of its own
+	np := func() *pair { return newPair(w.a, w.b) }
 	return []receiver{
 		&rawHandler{h: new(state.SequenceHandler)},
 		&rawHandler{h: state.NewSequenceHandler(), full: true},
-		&e2eRecv{p: p, mt: frame.NetworkTraffic, sealed: map[uint32][]byte{}},
-		&e2eRecv{p: p, mt: frame.RouterCtrl, sealed: map[uint32][]byte{}},
-		&e2eRecv{p: p, mt: frame.SessionData, sealed: map[uint32][]byte{}},
-		&e2eRecv{p: p, mt: frame.SessionCtrl, sealed: map[uint32][]byte{}},
-		&linkRecv{p: p, sealed: map[uint32][]byte{}},
+		&e2eRecv{p: np(), mt: frame.NetworkTraffic, sealed: map[uint32][]byte{}},
+		&e2eRecv{p: np(), mt: frame.RouterCtrl, sealed: map[uint32][]byte{}},
+		&e2eRecv{p: np(), mt: frame.SessionData, sealed: map[uint32][]byte{}},
+		&e2eRecv{p: np(), mt: frame.SessionCtrl, sealed: map[uint32][]byte{}},
+		&linkRecv{p: np(), sealed: map[uint32][]byte{}},
 	}
 }
 
